@@ -53,15 +53,14 @@ class AbstractVisibilities(Structure, ABC):
                     .ravel()
                 )
 
-        self.ordered_1d = np.concatenate(
-            (np.real(visibilities), np.imag(visibilities)), axis=0
-        )
-
         super().__init__(array=visibilities)
 
-    def __array_finalize__(self, obj):
-        if hasattr(obj, "ordered_1d"):
-            self.ordered_1d = obj.ordered_1d
+    @property
+    def ordered_1d(self) -> np.ndarray:
+        """
+        The real values followed by the imaginary values of these visibilities (always of the current contents).
+        """
+        return np.concatenate((np.real(self._array), np.imag(self._array)), axis=0)
 
     @property
     def slim(self) -> "AbstractVisibilities":
@@ -257,9 +256,6 @@ class VisibilitiesNoiseMap(Visibilities):
                     .ravel()
                 )
 
-        self.ordered_1d = np.concatenate(
-            (np.real(visibilities), np.imag(visibilities)), axis=0
-        )
         super().__init__(visibilities=visibilities)
 
         weight_list = 1.0 / self.in_array**2.0
@@ -269,8 +265,5 @@ class VisibilitiesNoiseMap(Visibilities):
         )
 
     def __array_finalize__(self, obj):
-        if hasattr(obj, "ordered_1d"):
-            self.ordered_1d = obj.ordered_1d
-
         if hasattr(obj, "weight_list_ordered_1d"):
             self.weight_list_ordered_1d = obj.weight_list_ordered_1d
